@@ -28,7 +28,7 @@ def outB (r : Except Exn Bool) : Sexp :=
 
 /-! ### tymer -/
 
-def top? : Sexp → Option TOp
+def top? : Sexp → Option (TOp Int)
   | .list [.atom "tyme", i, v] => do some (.setTyme (← nat? i) (← int? v))
   | .list [.atom "tick", i] => do some (.tick (← nat? i))
   | .list [.atom "start", d, s] => do some (.start (← optInt? d) (← optInt? s))
@@ -36,7 +36,7 @@ def top? : Sexp → Option TOp
   | .list [.atom "wind", i] => do some (.wind (← nat? i))
   | _ => none
 
-def outSnap : Option TSnap → Sexp
+def outSnap : Option (TSnap Int) → Sexp
   | none => .list [sym "stuck"]
   | some s => .list [ofOpt ofInt s.ret, ofInt s.duration, outI s.elapsed, outI s.remaining, outB s.expired]
 
@@ -46,13 +46,13 @@ def tymerReq (ts init ops : List Sexp) : Option Sexp := do
   let [w, dur, start] := init | none
   let w ← optNat? w; let dur ← optInt? dur; let start ← optInt? start
   let ops ← ops.mapM top?
-  let world : TWorld := { tyme := fun i => if i = 0 then t0 else t1, tock := fun i => if i = 0 then k0 else k1 }
-  let t := Tymer.new world w dur start
+  let world : TWorld Int := { tyme := fun i => if i = 0 then t0 else t1, tock := fun i => if i = 0 then k0 else k1 }
+  let t := Tymer.new Gen.tymerDuration world w dur start
   some (.list (outSnap (some (tsnap world t none)) :: (trun world t ops).map outSnap))
 
 /-! ### mono -/
 
-def mop? : Sexp → Option MOp
+def mop? : Sexp → Option (MOp Int)
   | .list [.atom "elapsed"] => some .elapsed
   | .list [.atom "remaining"] => some .remaining
   | .list [.atom "expired"] => some .expired
@@ -62,7 +62,7 @@ def mop? : Sexp → Option MOp
   | .list [.atom "restart", d] => do some (.restart (← optInt? d))
   | _ => none
 
-def outMVal : MVal → Sexp
+def outMVal : MVal Int → Sexp
   | .int v => ofInt v
   | .bool b => ofBool b
   | .raised e => sym (exnName e)
@@ -82,14 +82,41 @@ def monoReq (base incs : Sexp) (init ops : List Sexp) : Option Sexp := do
       | none => .list [sym "exhausted"]
       | some (v, c') => .list [outMVal v, used c']))
 
+/-! ### ptimer (Timer / AsyncTimer) -/
+
+def pop? : Sexp → Option (POp Int)
+  | .list [.atom "elapsed"] => some .elapsed
+  | .list [.atom "remaining"] => some .remaining
+  | .list [.atom "expired"] => some .expired
+  | .list [.atom "duration"] => some .duration
+  | .list [.atom "start", d, s] => do some (.start (← optInt? d) (← optInt? s))
+  | .list [.atom "restart", d] => do some (.restart (← optInt? d))
+  | _ => none
+
+def ptimerReq (kind base incs : Sexp) (init ops : List Sexp) : Option Sexp := do
+  let kind ← sym? kind
+  let base ← int? base
+  let incs ← ints? (← list? incs)
+  let [dur, start] := init | none
+  let dur ← int? dur; let start ← optInt? start
+  let ops ← ops.mapM pop?
+  let c0 : Script := { c := base, incs := incs, ovs := [] }
+  let used (c : Script) : Sexp := ofNat (incs.length - c.incs.length)
+  match PTimer.new scriptClock c0 dur start (kind == "timer") with
+  | none => some (.list [.list [sym "exhausted"]])
+  | some (a, c) =>
+    some (.list (.list [sym "new", used c] :: (prun scriptClock a c ops).map fun
+      | none => .list [sym "exhausted"]
+      | some (v, c') => .list [outMVal v, used c']))
+
 /-! ### pace -/
 
-def preop? : Sexp → Option PreOp
+def preop? : Sexp → Option (PreOp Int)
   | .list [.atom "peek"] => some .peek
   | .list [.atom "tock", v] => do some (.setTock (← int? v))
   | _ => none
 
-def outEv : Ev → Sexp
+def outEv : Ev Int → Sexp
   | .t r => .list [sym "t", ofInt r]
   | .x r => .list [sym "x", ofInt r]
   | .s d => .list [sym "s", ofInt d]
@@ -106,12 +133,13 @@ def paceReq (base incs ovs tock0 pre n xs : Sexp) : Option Sexp := do
   let pre ← (← list? pre).mapM preop?
   let n ← nat? n
   let xs ← natsL? (← list? xs)
-  let o := paceRun scriptClock (incs.length + 1) { c := base, incs := incs, ovs := ovs } tock0 pre n xs
+  let o := paceRun Gen.tymistTock scriptClock (incs.length + 1) { c := base, incs := incs, ovs := ovs } tock0 pre n xs
   some (.list [.list (o.pre.map outEv), .list (o.run.map outEv), sym (endName o.fin), ofOpt ofInt o.tock])
 
 def handle : Sexp → Sexp
   | .list [.atom "tymer", .list ts, .list init, .list ops] => (tymerReq ts init ops).getD (sym "bad-request")
   | .list [.atom "mono", base, incs, .list init, .list ops] => (monoReq base incs init ops).getD (sym "bad-request")
+  | .list [.atom "ptimer", kind, base, incs, .list init, .list ops] => (ptimerReq kind base incs init ops).getD (sym "bad-request")
   | .list [.atom "pace", base, incs, ovs, tock0, pre, n, xs] => (paceReq base incs ovs tock0 pre n xs).getD (sym "bad-request")
   | _ => sym "bad-request"
 
